@@ -56,3 +56,11 @@ CLAIMED['C01'] = (
     'np.mod float64 semantics modelled after numpy npy_divmod; z3.',
     'DESIGN.md §3 C01')
 NOT_APPLICABLE.pop('C01', None)
+CLAIMED['C13'] = (
+    'symbolic execution of Trajectory.drift/apply_drift_correction/filter on displacement-form trajectories with real-valued steps; z3 (LRA + ToInt) per-entry obligations with chained lemmas',
+    'For every trajectory of the bounded shapes with steps strictly inside the half cell: drift = reference mean, corrected steps = steps - mean, zero reference mean, '
+    'first frame/species/lattice/metadata unchanged, idempotence, invariance under an added rigid time-dependent translation, floating == all-others-fixed; '
+    'all as z3-unsat obligations for str/list/none selections and Species/Element objects.',
+    'Displacement-form input (the wrapped-positions -> minimum-image-steps step is re-proved as a lemma where filter() round-trips); steps reaching the half cell excluded; floats read as reals; z3.',
+    'DESIGN.md §3 C13')
+NOT_APPLICABLE.pop('C13', None)
